@@ -2,6 +2,7 @@ from __future__ import annotations
 
 import logging
 from collections.abc import Collection, MutableMapping, MutableSequence, MutableSet
+from collections.abc import Mapping as ABCMapping
 from dataclasses import KW_ONLY, InitVar, fields
 from dataclasses import Field as DataClassField
 from enum import Enum
@@ -474,6 +475,12 @@ def is_instance(value: Any, type_: Any) -> bool:
         # Non-tuple collection with no args, assume True
         if not args:
             return True
+
+        # Mappings have two args: key and value types
+        if len(args) == 2 and isinstance(value, ABCMapping):
+            return all(
+                is_instance(k, args[0]) and is_instance(v, args[1]) for k, v in value.items()
+            )
 
         if len(args) > 1:
             raise RuntimeError(f"Unexpected collection type {type_}. Please, report a bug.")
